@@ -129,24 +129,8 @@ theorem filter_encodeInto4 (c : Char) :
 
 /-! ### Events: what each delivers -/
 
-/-- The character an event delivers to `term::read_char`, if any. -/
-def delivers (e : Event) : Option Char :=
-  match keyOfEvent e with
-  | .ok (.char ch) => some ch
-  | .ok .enter => some '\n'
-  | _ => none
-
-/-- `Ctrl+C`: the one event on which `Key::try_from` does not return. -/
-def isCtrlC (e : Event) : Prop := keyOfEvent e = .ctrlC
-
-instance : DecidablePred isCtrlC := fun e => inferInstanceAs (Decidable (keyOfEvent e = .ctrlC))
-
 /-- An event that is consumed without delivering anything. -/
 def Ignored (e : Event) : Prop := delivers e = none ∧ ¬ isCtrlC e
-
-def NoCtrlC (evs : List Event) : Prop := ∀ e ∈ evs, ¬ isCtrlC e
-
-instance (evs : List Event) : Decidable (NoCtrlC evs) := by unfold NoCtrlC; infer_instance
 
 /-- Exactly which events are `Ctrl+C`. -/
 theorem isCtrlC_iff (e : Event) :
@@ -367,12 +351,6 @@ def readsN : Nat → TermState → List Event → Option (List Char × TermState
   | n + 1, st, evs => match runtimeReadChar st evs with
     | .val ch st' rest => (readsN n st' rest).map (fun r => (ch :: r.1, r.2))
     | _ => none
-
-/-- The bytes a pipe has to carry for a program to read what these events make it read. -/
-def pipeBytes (evs : List Event) : List Nat :=
-  evs.flatMap (fun e => match delivers e with
-    | some ch => utf8Bytes ch
-    | none => [])
 
 theorem pipeBytes_nextChar (evs : List Event) :
     pipeBytes evs = (match nextChar evs with
